@@ -1,6 +1,6 @@
 """C16 Secure mode never exposes writable-and-executable JIT pages (decided whole for the Linux build)."""
 import astq
-from rules import wx
+from rules import wx, jitcross
 
 LEVEL = 'proof'
 TECHNIQUE = 'whole-library call-graph reachability over LLVM IR (virtual / function-pointer calls resolved by type) + constant propagation of protection arguments + RW/RX typestate on the CFG of every secure instantiation'
@@ -23,3 +23,5 @@ def run(ctx, R):
     wx.rule_reach(ctx, R, M, wxf)
     wx.rule_class(ctx, R, F)
     wx.rule_bracket(ctx, R, F)
+    jitcross.rule_life_wx_arch(ctx, R, 'a64')
+    jitcross.rule_life_wx_arch(ctx, R, 'rv64')
